@@ -68,3 +68,47 @@ Lemma sw_Encode_hashed : sw SW_Packet_Encode 0 1 = [2; 3; 4; 5; 11; 40; 41; 42; 
 Lemma sw_Encode_zero : sw SW_Packet_Encode 1 0 = [4; 40; 43]. Proof. reflexivity. Qed.
 Lemma sw_IsAuthReq_always : sw SW_IsAuthenticRequest 0 0 = [1; 12]. Proof. reflexivity. Qed.
 Lemma sw_IsAuthReq_hashed : sw SW_IsAuthenticRequest 0 1 = [4; 40; 43]. Proof. reflexivity. Qed.
+
+(* ---- attribute.go: passwords ---- *)
+Example shape_NewUserPassword :
+  (gexpr_is G_NewUserPassword 0 "len(plaintext)" && gexpr_is G_NewUserPassword 1 "len(secret)" &&
+   gexpr_is G_NewUserPassword 2 "len(requestAuthenticator)")%bool = true.
+Proof. guard_shape. Qed.
+Lemma g_NewUserPassword_0 x : holds (gd G_NewUserPassword 0) x = (x >? 128). Proof. reflexivity. Qed.
+Lemma g_NewUserPassword_1 x : holds (gd G_NewUserPassword 1) x = (x =? 0). Proof. reflexivity. Qed.
+Lemma g_NewUserPassword_2 x : holds (gd G_NewUserPassword 2) x = negb (x =? 16). Proof. reflexivity. Qed.
+
+Example shape_UserPassword :
+  (gexpr_is G_UserPassword 0 "len(a)" && gexpr_is G_UserPassword 1 "len(a)" && gexpr_is G_UserPassword 2 "len(a) % 16" &&
+   gexpr_is G_UserPassword 3 "len(secret)" && gexpr_is G_UserPassword 4 "len(requestAuthenticator)")%bool = true.
+Proof. guard_shape. Qed.
+Lemma g_UserPassword_0 x : holds (gd G_UserPassword 0) x = (x <? 16). Proof. reflexivity. Qed.
+Lemma g_UserPassword_1 x : holds (gd G_UserPassword 1) x = (x >? 128). Proof. reflexivity. Qed.
+Lemma g_UserPassword_2 x : holds (gd G_UserPassword 2) x = negb (x =? 0). Proof. reflexivity. Qed.
+Lemma g_UserPassword_3 x : holds (gd G_UserPassword 3) x = (x =? 0). Proof. reflexivity. Qed.
+Lemma g_UserPassword_4 x : holds (gd G_UserPassword 4) x = negb (x =? 16). Proof. reflexivity. Qed.
+
+Example shape_NewTunnelPassword :
+  (gexpr_is G_NewTunnelPassword 0 "len(password)" && gexpr_is G_NewTunnelPassword 1 "len(salt)" &&
+   gexpr_is G_NewTunnelPassword 2 "salt[0] & 0x80" &&
+   gexpr_is G_NewTunnelPassword 3 "len(secret)" && gexpr_is G_NewTunnelPassword 4 "len(requestAuthenticator)")%bool = true.
+Proof. guard_shape. Qed.
+Lemma g_NewTunnelPassword_1 x : holds (gd G_NewTunnelPassword 1) x = negb (x =? 2). Proof. reflexivity. Qed.
+Lemma g_NewTunnelPassword_2 x : holds (gd G_NewTunnelPassword 2) x = negb (x =? 128). Proof. reflexivity. Qed.
+Lemma g_NewTunnelPassword_3 x : holds (gd G_NewTunnelPassword 3) x = (x =? 0). Proof. reflexivity. Qed.
+Lemma g_NewTunnelPassword_4 x : holds (gd G_NewTunnelPassword 4) x = negb (x =? 16). Proof. reflexivity. Qed.
+
+Example shape_TunnelPassword :
+  (gexpr_is G_TunnelPassword 0 "len(a)" && gexpr_is G_TunnelPassword 1 "len(a)" && gexpr_is G_TunnelPassword 2 "(len(a) - 2) % 16" &&
+   gexpr_is G_TunnelPassword 3 "len(secret)" && gexpr_is G_TunnelPassword 4 "len(requestAuthenticator)" &&
+   gexpr_is G_TunnelPassword 5 "a[0] & 0x80")%bool = true.
+Proof. guard_shape. Qed.
+Lemma g_TunnelPassword_0 x : holds (gd G_TunnelPassword 0) x = (x >? 252). Proof. reflexivity. Qed.
+Lemma g_TunnelPassword_1 x : holds (gd G_TunnelPassword 1) x = (x <? 18). Proof. reflexivity. Qed.
+Lemma g_TunnelPassword_2 x : holds (gd G_TunnelPassword 2) x = negb (x =? 0). Proof. reflexivity. Qed.
+Lemma g_TunnelPassword_3 x : holds (gd G_TunnelPassword 3) x = (x =? 0). Proof. reflexivity. Qed.
+Lemma g_TunnelPassword_4 x : holds (gd G_TunnelPassword 4) x = negb (x =? 16). Proof. reflexivity. Qed.
+Lemma g_TunnelPassword_5 x : holds (gd G_TunnelPassword 5) x = negb (x =? 128). Proof. reflexivity. Qed.
+(* bound on the password: the statement requires the encoding plus a tag byte
+   to fit one attribute, i.e. at most 239 bytes of password *)
+Lemma g_NewTunnelPassword_0 x : holds (gd G_NewTunnelPassword 0) x = (x >? 239). Proof. reflexivity. Qed.
